@@ -156,8 +156,15 @@ def sample_messages(ctx):
     out = []
     defs = msggen.all_defs()
     pick = defs if not ctx.quick() else rng.sample(defs, 120)
+    if ctx.quick():
+        # message families with code of their own (variant selectors, special cases in the walk): always present
+        vkeys = {k for tab in VARIANTS.values() for k in tab}
+        special = [x for x in defs if x[3][0:2] in vkeys or x[3][0:2] in (b"\x10\x02", b"\x13\x80", b"\x0a\x31", b"\x02\x73")]
+        pick = pick + [x for x in special if x not in pick]
     for mode, name, d, key in pick:
         g = msggen.Gen(rng, d, mode, name, key, 1, "random")
+        if key[0:2] == b"\x10\x02":
+            g.overrides["calibTtagValid"] = len(out) % 2        # ESF-MEAS: both settings of the flag that adds a member
         p = g.payload()
         f = msggen.frame(key, p)
         out.append(("parse", f, mode))
